@@ -41,4 +41,8 @@ def schemaTagsRead : List (Nat × String) := [(1, "Struct"), (2, "Enum"), (3, "P
 def schemaPrimTagsWritten : List (String × Nat) := [("schema_i8", 1), ("schema_u8", 2), ("schema_i16", 3), ("schema_u16", 4), ("schema_i32", 5), ("schema_u32", 6), ("schema_i64", 7), ("schema_u64", 8), ("schema_f32", 10), ("schema_f64", 11), ("schema_bool", 12), ("schema_canary1", 13), ("schema_i128", 14), ("schema_u128", 15), ("schema_char", 16)]
 def schemaPrimTagsRead : List (Nat × String) := [(1, "schema_i8"), (2, "schema_u8"), (3, "schema_i16"), (4, "schema_u16"), (5, "schema_i32"), (6, "schema_u32"), (7, "schema_i64"), (8, "schema_u64"), (9, "schema_string"), (10, "schema_f32"), (11, "schema_f64"), (12, "schema_bool"), (13, "schema_canary1"), (14, "schema_i128"), (15, "schema_u128"), (16, "schema_char")]
 
+/- which pairs of schema kinds `diff_schema` / `Schema::layout_compatible` treat together (all others: different / incompatible) -/
+def diffSchemaArms : Option (List (String × String)) := some [("Array", "Array"), ("Boxed", "Boxed"), ("Custom", "Custom"), ("Enum", "Enum"), ("FnClosure", "FnClosure"), ("Future", "Future"), ("Primitive", "Primitive"), ("Recursion", "Recursion"), ("Reference", "Reference"), ("SchemaOption", "SchemaOption"), ("Slice", "Slice"), ("StdIoError", "StdIoError"), ("Str", "Str"), ("Struct", "Struct"), ("Trait", "Trait"), ("Undefined", "Undefined"), ("UninitSlice", "UninitSlice"), ("UtcTimestamp", "UtcTimestamp"), ("Vector", "Vector"), ("ZeroSize", "ZeroSize")]
+def layoutCompatibleArms : Option (List (String × String)) := some [("Array", "Array"), ("Boxed", "Boxed"), ("Custom", "Custom"), ("Enum", "Enum"), ("FnClosure", "FnClosure"), ("Primitive", "Primitive"), ("Reference", "Reference"), ("SchemaOption", "SchemaOption"), ("Slice", "Slice"), ("Struct", "Struct"), ("Vector", "Vector"), ("ZeroSize", "ZeroSize")]
+
 end Sfv.Pinned
